@@ -456,6 +456,14 @@ func runC03(c *Ctx) {
 			if strings.HasPrefix(o, "Query.On") && o != "Query.OnInput" {
 				return o
 			}
+			// a callback handed to a helper: func(context.Context, ...) error parameter
+			if pr, ok := v.(*ssa.Parameter); ok && pr.Parent() != nil && pkgOf(pr.Parent()) != nil && pkgOf(pr.Parent()).Path() == core.PkgCh {
+				if sig, ok := pr.Type().Underlying().(*types.Signature); ok && sig.Params().Len() >= 1 && core.IsNamed(sig.Params().At(0).Type(), "context", "Context") {
+					if _, hasErr := core.ReturnsError(sig); hasErr {
+						return "param:" + pr.Name()
+					}
+				}
+			}
 			return ""
 		}
 		n := 0
@@ -743,6 +751,7 @@ func runC03(c *Ctx) {
 	}()
 	ruleResetBefore(c, p, "C03.reset")
 	rulePacketRead(c, p, "C03.packet-read")
+	ruleEndMarker(c, p, "C03.endmarker")
 	// read errors on the client's receive path reach only failure exits
 	c.R.Rule("C03.errors", "E6 (as C07.errors) restricted to package ch: every error of a read or decode on the receive path (packet code, exception, progress, profile, blocks) reaches only failure exits, so Do returns nil only for a stream that was read completely")
 	{
